@@ -194,6 +194,12 @@ pub fn dash_path(path: &Path, dash_array: &[f32], mut dash_offset: f32) -> Path 
                     initial_segment = Vec::new();
                     cur_pt = Some(start_point);
 
+                    // a LineTo directly after Close begins a new subpath at the start
+                    // point, just as if there had been a MoveTo to it
+                    dashed.move_to(start_point.x, start_point.y);
+                    is_first_segment = true;
+                    first_dash = true;
+
                     // reset the dash state
                     state = initial;
                 } else {
